@@ -1,5 +1,5 @@
 """Registry: property id -> check function(ctx) -> exit code."""
-from checks import tracker, sshdfam, sshdproc, conc, healthchk, framingchk, pipeline, dirreaderchk
+from checks import tracker, sshdfam, sshdproc, conc, healthchk, framingchk, pipeline, dirreaderchk, reasmchk
 
 
 def _tracker(prop):
@@ -77,3 +77,11 @@ def _c20(ctx):
 
 
 REGISTRY["C20"] = _c20
+
+
+def _c15(ctx):
+    cov = reasmchk.run(ctx)
+    return ctx.finish("model_checking", cov, reasmchk.ASSUME)
+
+
+REGISTRY["C15"] = _c15
